@@ -280,10 +280,11 @@ pub fn execute(plan: &C07Plan) -> (Option<C07Violation>, C07Stats) {
                 }
             }
         }
-        let mut w = FaultyWriter::new(&pass);
+        let mut w = FaultyWriter::new(&pass).capped(4 * l + 65536);
         st.attempts += 1;
         match guarded(|| m.write(&mut w).map_err(|e| e.to_string())) {
             None => fail!("S1:panic@write", "S1", 0, "write", last_panic()),
+            Some(_) if w.overflow => fail!("S1:writer-runaway", "S1", 0, "write", format!("write() sent more than {} bytes for a model of {l} bytes", 4 * l + 65536)),
             Some(Err(e)) => fail!("S1:write-failed-on-healthy-writer", "S1", 0, "write", e),
             Some(Ok(())) => {
                 if w.sink != bytes0 {
@@ -299,7 +300,7 @@ pub fn execute(plan: &C07Plan) -> (Option<C07Violation>, C07Stats) {
             if !want("S2", i) {
                 continue;
             }
-            let mut w = FaultyWriter::new(sc);
+            let mut w = FaultyWriter::new(sc).capped(4 * l + 65536);
             st.attempts += 1;
             let r = guarded(|| m.write(&mut w).map_err(|e| e.to_string()));
             st.fired.add(&w.fired);
@@ -311,6 +312,7 @@ pub fn execute(plan: &C07Plan) -> (Option<C07Violation>, C07Stats) {
             }
             match r {
                 None => fail!("S2:panic@write", "S2", i, "benign-write", last_panic()),
+                Some(_) if w.overflow => fail!("S2:writer-runaway", "S2", i, "benign-write", format!("write() sent more than {} bytes for a model of {l} bytes under a benign short/interrupted schedule (bytes re-sent in a retry loop)", 4 * l + 65536)),
                 Some(Err(e)) => fail!("S2:write-failed-on-benign-schedule", "S2", i, "benign-write", e),
                 Some(Ok(())) => {
                     if w.sink != bytes0 {
